@@ -56,7 +56,7 @@ Qed.
 Definition events (rs : list sresult) : list sevent :=
   flat_map (fun r => match r with SEvent e => [e] | _ => [] end) rs.
 
-Definition data_wf (data : bytes) : Prop := lenN data <= 16777215 /\ forallb (fun b => b <? 256) data = true.
+Definition data_wf (data : bytes) : Prop := lenN data <= 16777215.
 
 Definition media_msg (video : bool) (data : bytes) : rtmp_message := if video then MVideoData data else MAudioData data.
 Definition media_tid (video : bool) : N := if video then 9 else 8.
@@ -80,7 +80,7 @@ Lemma link_message ser de m force drop :
 Proof.
   intros HL Hwf Htid. pose proof HL as [sd [HSim _]].
   destruct (serialize_refused_or_ok ser m force drop (Sim_max _ _ HSim)) as [_ Hok].
-  destruct Hwf as [W1 [W2 [W3 [W4 W5]]]].
+  destruct Hwf as [W1 [W2 [W3 W4]]].
   destruct (Hok W4) as [b [ser' [Hser _]]].
   destruct (link_op ser de (OpMsg m force drop) b ser' HL) as [de1 [de2 [de3 [G1 [Hd [G2 HL2]]]]]].
   - cbn [op_wf]. split; [repeat split; assumption|exact Htid].
@@ -148,7 +148,7 @@ Theorem publish_media_delivered c s video data ts drop clock sid app key :
     Link (cl_ser c') (sv_de s') /\ ser_ok (sv_ser s') /\ publishing_stream c' = Ok sid /\
     sv_connected s' = true /\ publishing_key s' sid = Some (app, key).
 Proof.
-  intros HL Hser Hps Hsid Hts [Hlen Hbytes] Hc Hk.
+  intros HL Hser Hps Hsid Hts Hlen Hc Hk.
   set (m := {| m_ts := ts; m_tid := media_tid video; m_sid := sid; m_data := data |}).
   assert (Hwf : msg_wf m).
   { unfold msg_wf, m. cbn [m_ts m_tid m_sid m_data]. repeat split; try assumption. destruct video; cbn; lia. }
@@ -219,7 +219,7 @@ Theorem play_media_delivered s c video data ts drop clock sid :
     cevents rs = [cmedia_event video data ts] /\
     Link (sv_ser s') (cl_de c') /\ ser_ok (cl_ser c') /\ playing_on c' sid.
 Proof.
-  intros HL Hser Hp Hsid Hts [Hlen Hbytes].
+  intros HL Hser Hp Hsid Hts Hlen.
   set (m := {| m_ts := ts; m_tid := media_tid video; m_sid := sid; m_data := data |}).
   assert (Hwf : msg_wf m).
   { unfold msg_wf, m. cbn [m_ts m_tid m_sid m_data]. repeat split; try assumption. destruct video; cbn; lia. }
